@@ -49,7 +49,7 @@ def build_iface(case):
 
         def line(params):
             if d["kind"] == "attr":
-                return "    %s = Attribute('a%d')" % (name, i)
+                return "    %s = Attribute('attribute number %d')" % (name, i)
             return "    def %s(%s): pass" % (name, params)
 
         lvl = el["level"]
@@ -61,7 +61,7 @@ def build_iface(case):
             if "base_params" in el:
                 base_lines.append("    def %s(%s): pass" % (name, el["base_params"]))
             else:
-                base_lines.append("    %s = Attribute('b%d')" % (name, i))
+                base_lines.append("    %s = Attribute('base attribute number %d')" % (name, i))
             own_lines.append(line(d.get("params")))
     src = "class IBase(Interface):\n%s\nclass I(IBase):\n%s\nclass ISub(I):\n    pass\n" % (
         "\n".join(base_lines) or "    pass", "\n".join(own_lines) or "    pass")
